@@ -20,3 +20,17 @@ def enum_by_int(enum_cls, n):
 
 
 COGEN = (31, 32, 41, 42, 51, 52)
+
+
+def model_after_reading(enduse_int, plant_int, extra=None):
+    """real Model after Model.read_parameters() for this end-use / plant type: enum parameters are coerced, the
+    surface-plant object is the class the real pipeline runs, special-case state is as the real reader leaves it"""
+    import os
+    params = {"End-Use Option": str(enduse_int), "Power Plant Type": str(plant_int)}
+    if plant_int == 7:
+        # the district-heating reader needs a demand file; the repository's own example file is used
+        repo = os.environ.get("VERIF_REPO", "/repo")
+        params["District Heating Demand File Name"] = os.path.join(repo, "tests", "examples", "cornell_heat_demand.csv")
+    if extra:
+        params.update(extra)
+    return get_model(params, read_parameters=True)
